@@ -65,3 +65,27 @@ def make_path_variants(root):
                 os.symlink(src, os.path.join(d, t))
         variants[name] = d
     return variants
+
+
+def git_style_variants(root):
+    """user-level git configuration files selecting the conflict style that `git merge-file` (the text-merge helper
+    of the 'full' PATH variant) prints: default (merge), diff3 (adds a ||||||| base section), zdiff3.
+    Returns [path, ...]; switch with os.environ['GIT_CONFIG_GLOBAL']."""
+    out = ["/dev/null"]
+    for style in ("diff3", "zdiff3"):
+        p = os.path.join(root, "gitconfig-" + style)
+        with open(p, "w") as f:
+            f.write("[merge]\n\tconflictstyle = %s\n" % style)
+        out.append(p)
+    return out
+
+
+_style_turn = [0]
+
+
+def rotate_git_style(styles):
+    """next conflict style for the coming merge (deterministic round robin); returns its label"""
+    _style_turn[0] += 1
+    p = styles[_style_turn[0] % len(styles)]
+    os.environ["GIT_CONFIG_GLOBAL"] = p
+    return os.path.basename(p).replace("gitconfig-", "").replace("null", "default")
